@@ -25,6 +25,10 @@ type Profile struct {
 	Limits     bool // generate *WithLimit iterator ops
 	MaxSnaps   int
 	MaxIters   int
+	// FlushBeforeIngest: a Flush precedes every direct-to-LSM operation (ingest, excise), so that the
+	// profile never builds the known shape "ingest over a commit that is only in the WAL buffer"
+	// (KNOWN_FINDINGS C11/C13/C38); a dedicated finding script builds it on purpose
+	FlushBeforeIngest bool
 }
 
 var extraProfiles func(add func(Profile))
@@ -304,7 +308,14 @@ func (g *Gen) ingestTables() (tables [][]Ev, flat []Ev) {
 	return tables, flat
 }
 
+func (g *Gen) preIngest() {
+	if g.P.FlushBeforeIngest {
+		g.R.Exec(Ev{"op": "maint", "kind": "flush"})
+	}
+}
+
 func (g *Gen) actIngest() {
+	g.preIngest()
 	tables, flat := g.ingestTables()
 	g.R.Exec(Ev{"op": "ingest", "tables": tables, "ops": flat})
 	g.track(flat)
@@ -321,6 +332,7 @@ func (g *Gen) actExcise() {
 		return
 	}
 	a, b := g.pspan()
+	g.preIngest()
 	g.R.Exec(Ev{"op": "excise", "a": a, "b": b})
 	g.trackExcise(a, b)
 	g.taintSnaps()
@@ -348,6 +360,7 @@ func (g *Gen) actIngestExcise() {
 		tbl = append(tbl, Ev{"o": "set", "k": a, "v": g.v()})
 	}
 	sort.Slice(tbl, func(i, j int) bool { return tbl[i].I("k") < tbl[j].I("k") })
+	g.preIngest()
 	g.R.Exec(Ev{"op": "ingestexcise", "a": a, "b": b, "tables": [][]Ev{tbl}, "ops": tbl})
 	g.trackExcise(a, b)
 	g.track(tbl)
@@ -928,6 +941,8 @@ func (g *Gen) Step() {
 		g.actExtMask()
 	case "ingestpair":
 		g.actIngestPair()
+	case "checkpointinner":
+		g.actCheckpointInner()
 	case "straddle":
 		g.actStraddle()
 	case "sdelchain":
